@@ -15,7 +15,9 @@ func stringify(ty *Type, inProcess util.PtrSet) string {
 		if inProcess.Contains(ty) {
 			return fmt.Sprintf("recursive-type %s@%p", ty.Kind, ty)
 		} else {
+			// on the current path only: a value shared by two siblings is not recursive
 			inProcess.Add(ty)
+			defer inProcess.Remove(ty)
 		}
 	}
 
